@@ -158,6 +158,12 @@ def canon_item(item, depth=0):
 
 
 def canon_pred(p):
+    """Symmetric comparisons are ordered after renaming, so that alpha-equivalent guards compare equal."""
+    if isinstance(p, tuple) and p:
+        if p[0] == "cmp" and p[1] == "==" and len(p) == 4:
+            a, b = sorted([canon_pred(p[2]), canon_pred(p[3])], key=repr)
+            return ("cmp", "==", a, b)
+        return tuple(canon_pred(x) for x in p)
     return p
 
 
